@@ -317,7 +317,10 @@ def many_bins_body(env, p):
     starts, ends = bins["start"].tolist(), bins["end"].tolist()
     marks = sorted({k for k in range(2, nb + 2) if (k - 2) % 512 == 0 or (k - 2) % 1000 == 0} | {nb, nb + 1})
     cands = sorted({min(max(starts[k] + d, 0), L) for k in marks for d in (-1, 0, 1)} | {L})
-    a, d = env.choice("a", len(cands)), env.choice("d", 6)
+    # (a choice ranges over at most 64 values: the index into the candidate list is drawn in two steps)
+    a = env.choice("a_hi", (len(cands) + 49) // 50) * 50 + env.choice("a_lo", min(50, len(cands)))
+    env.assume(a < len(cands))
+    d = env.choice("d", 6)
     # the end: the same position (empty range), one of the next three candidate positions, the candidate 10 further on, or the chromosome end
     start, end = cands[a], (cands[min(a + d, len(cands) - 1)] if d < 4 else cands[min(a + 10, len(cands) - 1)] if d == 4 else L)
     if known_active("F16"):
